@@ -6,8 +6,8 @@ The Model functions named here are the ones `ofv-driver` executes in the corresp
 Proved end-to-end for one term: `qubit_term_matrix_sound` (the Kronecker chain of a Pauli string is
 its matrix in the big-endian basis, all register sizes).  Not proved (see OPEN_STATEMENTS in
 harness/c06.py): the coordinate assembly over several terms (`qubitTermTriplets` with the swapped
-`nonzero()` order, `canonEntries`), `jw_sparse_sound`, `diagonal_sound`;
-they are covered by the exact correspondence run and the Spec oracle.
+`nonzero()` order, `canonEntries`) and `jw_sparse_sound`; they are covered by the exact
+correspondence run and the Spec oracle.
 -/
 import OFV.Model.C06
 import OFV.Spec.C06
@@ -117,6 +117,43 @@ theorem matvec_linear (n : Nat) (a : List (List (Nat × Nat) × GQ)) (x : List G
     cases x[i]? <;> rfl
   rw [hz] at h
   exact h
+
+/-! ### `get_linear_qubit_operator_diagonal` -/
+
+/-- `diagonal_sound`, term level: a term containing `X` or `Y` contributes nothing; for a term of
+`Z`s on qubits `< n` the contributed vector has length `2^n` and its entry at `beIndex n s` is the
+diagonal matrix element `⟨s| t |s⟩ = i^k` (`t|s⟩ = i^k |s⟩`), for every basis state `s`. -/
+theorem diagonal_term_sound (n : Nat) (t : List (Nat × Nat))
+    (hp : t.Pairwise (fun f g => f.1 < g.1)) (hn : ∀ f ∈ t, f.1 < n) :
+    ((∃ f ∈ t, f.2 = 1 ∨ f.2 = 2) → diagTerm n t = none) ∧
+    ((∀ f ∈ t, f.2 = 3) → ∃ v, diagTerm n t = some v ∧ v.length = 2 ^ n ∧
+      ∀ s, s < 2 ^ n → (actPTerm t s).2 = s ∧ v.getD (beIndex n s) 0 = GQ.ipow (actPTerm t s).1) := by
+  refine ⟨diagTerm_of_xy n t, fun hz => ?_⟩
+  have hv : ∀ f ∈ t, f.1 < n ∧ 1 ≤ f.2 ∧ f.2 ≤ 3 := fun f hf => ⟨hn f hf, by rw [hz f hf]; omega, by rw [hz f hf]; omega⟩
+  obtain ⟨hl, hs⟩ := matvecTerm_sound n t (List.replicate (2 ^ n) 1) hp hv (by simp)
+  refine ⟨_, diagTerm_of_allZ n t hz, hl, fun s hs' => ?_⟩
+  have hdiag := actPTerm_allZ t hz s
+  refine ⟨hdiag, ?_⟩
+  have := hs s
+  rw [hdiag] at this
+  rw [this]
+  have : (List.replicate (2 ^ n) (1 : GQ)).getD (beIndex n s) 0 = 1 := by
+    simp [List.getD_eq_getElem?_getD, List.getElem?_replicate, beIndex_lt n s]
+  rw [this, gq_mul_one]
+
+example : diagTerm 2 [(1, 3)] = some [1, -1, 1, -1] ∧ diagTerm 2 [(0, 1), (1, 3)] = none := by
+  refine ⟨by decide +kernel, by decide +kernel⟩
+
+/-! ### `ParallelLinearQubitOperator`: the groups together are the whole operator -/
+
+/-- For every process count `k`, every entry of the parallel result (group results delivered in
+the natural order; any other order gives the same vector by `parallel_any_order`) equals the entry of
+the undivided `LinearQubitOperator._matvec`. -/
+theorem parallel_matvec_sound (n k : Nat) (a : List (List (Nat × Nat) × GQ)) (x : List GQ)
+    (hx : x.length = 2 ^ n)
+    (ha : ∀ e ∈ a, e.1.Pairwise (fun f g => f.1 < g.1) ∧ ∀ f ∈ e.1, f.1 < n ∧ 1 ≤ f.2 ∧ f.2 ≤ 3) (i : Nat) :
+    (parallelMatvec k a x (List.range (operatorGroups k a).length)).getD i 0 = (matvec a x).getD i 0 :=
+  parallel_eq_matvec n k a x hx ha i
 
 /-! ### the big-endian index convention -/
 
